@@ -146,7 +146,7 @@ def pop_at_mode(model):
     return True
 
 
-def run_config(model_name, cfg, seed, workdir, n_ind=6, want_params=False, compare_to=None, reuse_algo=False):
+def run_config(model_name, cfg, seed, workdir, n_ind=6, want_params=False, compare_to=None, reuse_algo=False, via_file=False):
     """Run one real fit under the recorder.  Returns (events, info)."""
     events = []
     model, data, df = zoo.make(model_name, n_ind=n_ind, seed=seed % 5)
@@ -167,6 +167,11 @@ def run_config(model_name, cfg, seed, workdir, n_ind=6, want_params=False, compa
             warnings.simplefilter("ignore")
             try:
                 settings = AlgorithmSettings("mcmc_saem", **settings_kwargs(cfg, seed))
+                if via_file:
+                    # the settings travel through a JSON file (AlgorithmSettings.save / load): same run expected
+                    fpath = os.path.join(workdir, "algo_settings.json")
+                    settings.save(fpath)
+                    settings = AlgorithmSettings.load(fpath)
                 lkw = log_kwargs(log, workdir)
                 if lkw:
                     settings.set_logs(**lkw)
